@@ -143,6 +143,29 @@ theorem fast_eq_generic_grad (ss : List (Sched K m nv)) (Ws : List (Mat K m m)) 
   rw [zip_sum_eq_bilBlocks (fun s => gradP s α) (fun s => resid s x) ss Ws hlen,
     bilFlat_block _ _ Ws (by simpa using hlen) (by simpa using hlen)]
 
+/-- C12 (fast value = generic value without weight matrices): the stacked `vec · vec` is the sum of the per-schedule
+squared distances, for any number of schedules and outcomes. -/
+theorem fast_eq_generic_value_noweights (ss : List (Sched K m nv)) (x : Vec K nv) :
+    fastValue ss none x = wseValue ss none x := by
+  unfold wseValue fastValue
+  rw [sumSched_eq, resolve_none]
+  simp only
+  rw [map_sum_eq_dotBlocks (fun s => resid s x) (fun s => resid s x)]
+  have := bilFlat_none_cat (ss.map fun s => resid s x) (ss.map fun s => resid s x) (by simp)
+  simp only [List.length_map] at this
+  rw [this]
+
+/-- C12 (fast gradient = generic gradient without weight matrices), componentwise. -/
+theorem fast_eq_generic_grad_noweights (ss : List (Sched K m nv)) (x : Vec K nv) (α : Fin nv) :
+    fastGradHalf ss none x α = wseGradHalf ss none x α := by
+  unfold wseGradHalf fastGradHalf
+  rw [sumSched_eq, resolve_none]
+  simp only
+  rw [map_sum_eq_dotBlocks (fun s => gradP s α) (fun s => resid s x)]
+  have := bilFlat_none_cat (ss.map fun s => gradP s α) (ss.map fun s => resid s x) (by simp)
+  simp only [List.length_map] at this
+  rw [this]
+
 end fastThms
 
 /-! ## option wiring -/
@@ -155,7 +178,7 @@ def modeWeights (opt : Opt K m) (G : List (Mat K (m - 1) (m - 1))) : Option (Lis
   match opt.mode with
   | .identity => none
   | .custom => opt.weights
-  | .invSample | .invUnbiased => some (G.map invCovWeight)
+  | .invSample | .invUnbiased | .unbiasedInv => some (G.map invCovWeight)
 
 theorem weightsByMode_eq (opt : Opt K m) (G : List (Mat K (m - 1) (m - 1))) :
     weightsByMode opt G = some (modeWeights opt G) := by
@@ -204,6 +227,7 @@ theorem configure_ok (atol : K) (hat : 0 ≤ atol) (st : GenWse K m) (opt : Opt 
     cases hm : opt.mode
     · simp [validWs]
     · exact absurd hm hne
+    · simp [hinv]
     · simp [hinv]
     · simp [hinv]
   · intro hc
@@ -278,6 +302,64 @@ theorem wre_identity_resets_weights (st : WreState K) (lens : List Nat) (fast gr
   cases fast <;> cases grad <;> cases hw : st.weights <;> simp [hw]
 
 end wiringThms
+
+/-! ## the hand-written wiring model is the interpretation of the GENERATED tables (QGen.C12, from the source) -/
+section generatedThms
+variable {K : Type} [Field K] [LinearOrder K] {m : Nat}
+
+/-- C12 (source tie, mode table): for every mode the model handles, the if/elif chain of
+`WeightedProbabilityBasedSquaredError._set_weights_by_mode` as generated from the source takes the branch the model
+implements — setter(None) for `identity`, setter(option.weights) for `custom`, the covariance loop with `num_data`
+for `inverse_sample_covariance` and with `num_data - 1` for `inverse_unbiased_covariance` and its alias. A renamed or re-wired mode in
+the source changes `QGen.C12.wseBranch` and breaks this proof. -/
+theorem gen_wse_branches (md : Mode) : QGen.C12.wseBranch (modeName md) = some (expectedBranch md) := by
+  cases md <;> decide
+
+/-- C12 (source tie, weights handed to the setter): `weightsByMode` is the interpretation of the generated branch. -/
+theorem weightsByMode_eq_generated (opt : Opt K m) (G : List (Mat K (m - 1) (m - 1))) :
+    weightsByMode opt G = (QGen.C12.wseBranch (modeName opt.mode)).map (interpBranch opt G) := by
+  rw [gen_wse_branches]
+  unfold weightsByMode expectedBranch interpBranch
+  cases opt.mode <;> rfl
+
+/-- C12 (source tie, call order): the model of `set_from_standard_qtomography_option_data` on the fast loss is the
+interpretation, call by call, of the method-call list generated from the source (option, q, model → cache rebuild,
+gradient model if required → cache rebuild, Hessian model if required, and last `_set_weights_by_mode`, whose setter
+rebuilds the cache). Moving or renaming a call in the source breaks this proof. -/
+theorem configureFast_eq_generated (atol : K) (st : FastWse K m) (opt : Opt K m) (grad : Bool)
+    (G : List (Mat K (m - 1) (m - 1))) :
+    configureFast atol st opt grad G = interpFast atol opt grad G QGen.C12.wiringOrder st := by
+  unfold configureFast
+  rw [weightsByMode_eq_generated]
+  cases grad <;> cases hb : QGen.C12.wseBranch (modeName opt.mode) <;>
+    simp [QGen.C12.wiringOrder, interpFast, stepFast, hb, bind, Except.bind] <;>
+    split <;> rfl
+
+/-- C12 (source tie, cache discipline of the fast classes): the generated facts the state machine relies on —
+the fast squared-error `set_weight_matrices` is `super()` + rebuild, `_calc_extend_weight_matrix` resets the cache
+when there are no weights and is called by both model setters; the fast relative-entropy `set_weights` rebuilds. -/
+theorem gen_fast_cache_discipline :
+    QGen.C12.fastWseSetterRebuilds = true ∧ QGen.C12.fastWseCalcResetsOnNone = true ∧
+    QGen.C12.fastWseModelSetterRebuilds = true ∧ QGen.C12.fastWseGradSetterRebuilds = true ∧
+    QGen.C12.fastWreSetterRebuilds = true := by decide
+
+/-- C12 (source tie, relative entropy): both accepted mode strings are handled, `identity` by `set_weights(None)`,
+`custom` by `set_weights(option.weights)` — what `configureWre` implements for `optWeights = none / some w`. -/
+theorem gen_wre_modes_handled :
+    (∀ md ∈ QGen.C12.wreAccepted, (QGen.C12.wreBranch md).isSome = true) ∧
+    QGen.C12.wreBranch "identity" = some .reset ∧ QGen.C12.wreBranch "custom" = some .optionWeights ∧
+    QGen.C12.wreForcesCustom = true ∧ QGen.C12.wseForcesCustom = true := by decide
+
+/-- C12 (every accepted mode is handled): every mode string the squared-error option accepts has a branch in
+`_set_weights_by_mode`, is one of the model's modes, and the alias `"unbiased_inverse_covariance"` takes the covariance
+branch with the unbiased (`num_data − 1`) denominator. -/
+theorem gen_wse_accepted_handled :
+    (∀ md ∈ QGen.C12.wseAccepted, (QGen.C12.wseBranch md).isSome = true) ∧
+    (∀ md ∈ QGen.C12.wseAccepted, md ∈ [Mode.identity, .custom, .invSample, .invUnbiased, .unbiasedInv].map modeName) ∧
+    QGen.C12.wseBranch "unbiased_inverse_covariance" = some (.invCov true) := by
+  decide
+
+end generatedThms
 
 /-! ## relative entropy: fast (vector) kernels equal the generic ones -/
 section entropyThms
@@ -531,6 +613,66 @@ theorem wre_hessian_hasDerivAt (epsq epsp : ℝ) (l : List Pt) (h : AwayAt epsq 
     exact relEntGrad_tie epsq epsp l t ht
   have hD := hF.congr_of_eventuallyEq hEq
   exact hD.congr_deriv (relEntHess_tie epsq epsp l h).symm
+
+/-- one outcome's term of the model's `relative_entropy` kernel as a function of the predicted probability -/
+noncomputable def termAt (epsq epsp q : ℝ) (p : ℝ) : ℝ :=
+  relEnt epsq epsp [q] [p] [Real.log (logArg q p epsq epsp)]
+
+/-- C12 (clipping branches, region `q < eps_q`): the outcome is skipped — its contribution to value, gradient and
+Hessian is identically zero for every `p` (so the gradient is trivially the derivative there). -/
+theorem relEnt_region_q_below (epsq epsp q p g a b : ℝ) (hq : q < epsq) :
+    termAt epsq epsp q p = 0 ∧ relEntGrad epsq epsp [q] [p] [g] = 0 ∧
+      relEntHess epsq epsp [q] [p] [a] [b] = 0 := by
+  have h : ¬ epsq ≤ q := not_le.mpr hq
+  simp [termAt, relEnt, relEntGrad, relEntHess, h]
+
+/-- C12 (clipping branches, region `q ≥ eps_q`, `p < eps_p`): `p` is replaced by `eps_p`, so the value term is locally
+constant in `p` (derivative `0`, Mathlib `HasDerivAt`), while `gradient_relative_entropy_2nd` returns `−q·∂p/eps_p`:
+inside the clipping region the reported gradient is NOT the derivative of the reported value (unless `q·∂p = 0`) —
+which is why the property is stated "away from the documented clipping thresholds". -/
+theorem relEnt_region_p_clipped (epsq epsp q p g : ℝ) (hq : epsq ≤ q) (hp : p < epsp) :
+    HasDerivAt (termAt epsq epsp q) 0 p ∧ relEntGrad epsq epsp [q] [p] [g] = -q * g / epsp := by
+  constructor
+  · have hconst : termAt epsq epsp q =ᶠ[𝓝 p] fun _ => termAt epsq epsp q p := by
+      filter_upwards [gt_mem_nhds hp] with p' hp'
+      have r1 : roundVarz p' epsp = epsp := by unfold roundVarz; rw [if_neg (not_lt.mpr (le_of_lt hp'))]
+      have r2 : roundVarz p epsp = epsp := by unfold roundVarz; rw [if_neg (not_lt.mpr (le_of_lt hp))]
+      simp only [termAt, relEnt, logArg, r1, r2]
+    exact (hasDerivAt_const p _).congr_of_eventuallyEq hconst
+  · have r2 : roundVarz p epsp = epsp := by unfold roundVarz; rw [if_neg (not_lt.mpr (le_of_lt hp))]
+    simp [relEntGrad, hq, r2]
+
+/-- C12 (clipping branches, region `q ≥ eps_q`, `p > eps_p`, `q/p < eps_p`): the ratio is replaced by `eps_p`, the value
+term is locally constant (`q·log eps_p`, derivative `0`), the gradient kernel returns `−q·∂p/p`. Together with
+`relEnt_region_q_below`, `relEnt_region_p_clipped` and `wre_gradient_hasDerivAt` (the open region where no threshold is
+active) this lists every branch of the kernel and its derivative on the interior of each region. -/
+theorem relEnt_region_ratio_clipped (epsq epsp q p g : ℝ) (hq : epsq ≤ q) (hp : epsp < p) (hpos : 0 < epsp)
+    (hr : q / p < epsp) :
+    HasDerivAt (termAt epsq epsp q) 0 p ∧ relEntGrad epsq epsp [q] [p] [g] = -q * g / p := by
+  have hp0 : p ≠ 0 := (lt_trans hpos hp).ne'
+  constructor
+  · have hc : ContinuousAt (fun p' : ℝ => q / p') p := continuousAt_const.div continuousAt_id hp0
+    have e1 : ∀ᶠ p' in 𝓝 p, q / p' < epsp := hc.eventually (gt_mem_nhds hr)
+    have e2 : ∀ᶠ p' in 𝓝 p, epsp < p' := lt_mem_nhds hp
+    have hconst : termAt epsq epsp q =ᶠ[𝓝 p] fun _ => roundVarz q epsq * Real.log epsp + 0 := by
+      filter_upwards [e1, e2] with p' h1 h2
+      have r1 : roundVarz p' epsp = p' := by unfold roundVarz; rw [if_pos h2]
+      have rq : roundVarz q epsq = q := roundVarz_of_le hq
+      have r3 : roundVarz (q / p') epsp = epsp := by unfold roundVarz; rw [if_neg (not_lt.mpr (le_of_lt h1))]
+      simp only [termAt, relEnt, logArg, r1, rq, r3, if_pos hq]
+    exact (hasDerivAt_const p _).congr_of_eventuallyEq hconst
+  · have r1 : roundVarz p epsp = p := by unfold roundVarz; rw [if_pos hp]
+    simp [relEntGrad, hq, r1]
+
+-- non-vacuity of the region hypotheses
+example := relEnt_region_q_below (1/10) (1/10) (1/20) (1/2) 1 1 1 (by norm_num)
+example := relEnt_region_p_clipped (1/10) (1/10) (1/2) (1/20) 1 (by norm_num) (by norm_num)
+example := relEnt_region_ratio_clipped (1/100) (1/10) (1/50) (1/2) 1 (by norm_num) (by norm_num) (by norm_num) (by norm_num)
+example : AwayAt (1/10) (1/10) [⟨1/2, 1/2, 1, 1⟩] 0 := by
+  intro x hx
+  simp only [List.mem_singleton] at hx
+  subst hx
+  norm_num
 
 end deriv
 
